@@ -30,12 +30,13 @@ class Layout:
             return self.plen
         return self.total % self.plen
 
-    def head(self, enc=0, out=False, role=None):
+    def head(self, enc=0, out=False, role=None, rate=0):
         """enc: 0 plain, 1 MSE + RC4 stream, 2 MSE handshake + plaintext stream; out: the library connects out
         (needs enc 1|2); role='iseed': initial-seeding torrent (oracle only, see props/c05.py)"""
-        return "plen=%d total=%d done=%s seed=%d files=%s%s%s%s" % (
+        return "plen=%d total=%d done=%s seed=%d files=%s%s%s%s" % (  # noqa
             self.plen, self.total, self.done, self.seed, ",".join(map(str, self.files)),
-            " enc=%d" % int(enc) if enc else "", " out=1" if (out and enc) else "", " role=%s" % role if role else "")
+            " enc=%d" % int(enc) if enc else "", " out=1" if (out and enc) else "",
+            (" role=%s" % role if role else "") + (" rate=%d" % rate if rate else ""))
 
     def parts(self, i):
         """[(begin, end)] offsets inside piece i of the non-empty file parts it is made of"""
@@ -64,7 +65,7 @@ LAYOUTS = [
 ]
 
 
-def normalize(ops):
+def normalize(ops, rate=0):
     """insert W:0 before a D:1 that follows R/C/D:0, cap D:1 at two, end with W:inf"""
     out, chokes = [], 0
     for o in ops:
@@ -84,12 +85,22 @@ def normalize(ops):
         # D:0 after a D:1 must not have unflushed requests in front of it
         if o == "D:0" and seen_choke and out2 and out2[-1][0] in "RC":
             out2.append("W:0")
+        # a keep-alive tick / quota grant acts on the library at once: no unflushed messages in front of it
+        if (o == "K" or o[0] == "Q") and out2 and (out2[-1][0] in "RC" or out2[-1] == "D:0"):
+            out2.append("W:0")
         out2.append(o)
         if o == "D:1":
             seen_choke = True
+        # any stepping of the library (e.g. the virtual time a later D:0 needs) is a write opportunity:
+        # make the one right after a choke decision / keep-alive tick explicit for the model
+        if o in ("D:1", "K"):
             if not (j + 1 < len(out) and out[j + 1][0] == "W"):
                 out2.append("W:0")
     out = out2
+    if rate:
+        # let every queued block finish: two grants (the first lands in the unthrottled pool, the second
+        # moves it to the unallocated quota the node may use), then an unlimited write
+        out += ["W:0", "Q:3000000", "Q:3000000", "W:inf", "Q:3000000", "W:inf"]
     if not out or out[-1] != "W:inf":
         out.append("W:inf")
     return out
@@ -194,7 +205,8 @@ def fmt(kind, t):
     return "%s:%d:%d:%d" % (kind, t[0], t[1], t[2])
 
 
-def gen_stream(r, L, mode):
+def gen_stream(r, L, mode, rate=0):
+    """rate > 0: throttled case -- Q:<n> grants quota to the real throttle; no D:1 (no virtual time may pass)"""
     ops = []
     budget = 400000            # payload bytes we are willing to move in one case
     sent = []
@@ -229,13 +241,18 @@ def gen_stream(r, L, mode):
             ops.append(fmt("C", r.choice(sent)))        # cancel (maybe already served)
         elif c < 0.70:
             ops.append(fmt("C", valid_req(r, L, True)))  # cancel of something never requested
-        elif c < 0.92:
+        elif c < 0.90:
             ops.append("W:%s" % rk(r))
+        elif c < 0.93:
+            ops.append("K")
+        elif rate and c < 0.99:
+            ops.append("Q:%d" % r.choice([0, 1, 500, 1023, 1024, 1025, 3000, 5000, 16384, 20000, r.randrange(0, 40000)]))
         elif c < 0.96:
-            ops.append("D:1")
+            if not rate:
+                ops.append("D:1")
         else:
             ops.append("D:0")
-    return normalize(ops)
+    return normalize(ops, rate)
 
 
 HAND = [
@@ -254,6 +271,10 @@ HAND = [
     "D:0 R:0:0:100 W:0 C:0:0:100 W:inf",
     "D:0 R:0:0:100 R:1:0:100 W:0 C:1:0:100 W:inf",
     "D:0 R:0:0:131072 R:0:0:131073 R:0:1:131072 W:inf",
+    # keep-alive ticks: idle, while the PIECE header is partly flushed, in the middle of the payload
+    "D:0 R:0:0:100 W:9 K W:3 K W:inf K K W:2 W:inf",
+    "D:0 W:inf K R:0:0:100 W:7 K W:0 K W:inf",
+    "D:0 R:0:0:16384 R:0:16384:100 W:5 K W:12 K W:1 K W:5000 K W:inf K W:inf",
 ]
 
 # RC4 stream: blocks inside the 2nd file part of piece 1 (layout 0/1: part boundary at 17232), partial
@@ -264,6 +285,14 @@ HAND_ENC = [
     "D:0 R:0:100:16384 R:1:32000:768 W:20 W:inf",
     "D:0 R:0:0:16384 R:1:0:16384 R:2:0:16384 W:100 D:1 W:50 R:3:0:10 W:inf D:0 R:3:0:10 W:inf",
     "D:0 R:3:21000:702 R:3:21697:5 R:3:21696:6 W:3 W:9 W:1 W:700 W:inf",
+]
+# throttled (rate=20000: min chunk 1024): the staging buffer gets less than a block, the socket takes a part,
+# more quota arrives than is left in the buffer
+HAND_THR = [
+    "D:0 R:1:17300:12000 W:inf Q:3000 W:1000 Q:5000 W:inf Q:20000 W:inf",
+    "D:0 R:1:17300:12000 R:0:0:5 W:inf Q:3000 W:1000 Q:5000 W:inf Q:20000 W:inf",
+    "D:0 R:1:20000:12768 W:inf Q:2000 W:700 Q:1100 W:300 Q:9000 W:5000 Q:20000 W:inf",
+    "D:0 R:0:0:16384 R:1:17232:6000 W:100 Q:1023 W:inf Q:1 W:inf Q:4000 W:2500 K Q:3000 W:inf Q:30000 W:inf",
 ]
 HAND_BIG = [   # layout 5 (512 KiB pieces): the 2^17 clause on its own
     "D:0 R:0:0:131072 W:inf R:1:0:131073 R:2:0:151424 R:0:0:524288 R:1:1000:262144 W:inf R:0:5:10 W:inf",
@@ -290,12 +319,23 @@ def gen(seed, tier):
         for h in HAND_ENC:
             cases.append(L.head(True) + " | " + " ".join(normalize(h.split())))
             stats["hand"] += 1
+    for L in LAYOUTS[:2]:
+        for h in HAND_THR:
+            for e in (0, 1):
+                cases.append(L.head(e, False, None, 20000) + " | " + " ".join(normalize(h.split(), 20000)))
+                stats["hand"] += 1
     for e in (False, True):
         for h in HAND_BIG:
             cases.append(LAYOUTS[5].head(e) + " | " + " ".join(normalize(h.split())))
             stats["hand"] += 1
     nval, nbnd, nmal, npar = (60, 90, 40, 60) if tier == "quick" else (500, 700, 300, 500)
-    stats.update(parts=0, rc4=0, plain=0, mse_plain=0, outgoing=0)
+    stats.update(parts=0, rc4=0, plain=0, mse_plain=0, outgoing=0, throttled=0)
+    for j in range(40 if tier == "quick" else 400):
+        L = LAYOUTS[(0, 1, 4, 2)[j % 4]]
+        e = 1 if r.random() < 0.6 else 0
+        rate = r.choice([5000, 20000, 20000, 100000])
+        cases.append(L.head(e, False, None, rate) + " | " + " ".join(gen_stream(r, L, ("parts", "valid")[j % 2], rate)))
+        stats["throttled"] += 1
     for L in LAYOUTS[:2]:
         for h in HAND_ENC[:3]:
             for (e, o) in ((1, True), (2, True), (2, False)):
@@ -338,12 +378,31 @@ def gen(seed, tier):
     return cases, stats
 
 
+def model_case(case, impl_line, policy):
+    """The case as the MODEL driver gets it: the probed policy in the header, and before every W the throttle
+    state the harness read from the real ThrottleList just before that write step (field thr= of the
+    implementation's output; only present for rate= cases)."""
+    head, _, ops = case.partition("|")
+    head = head.rstrip() + " " + policy
+    x = dict(t.split("=", 1) for t in impl_line.partition(" || ")[2].split() if "=" in t)
+    obs = [] if x.get("thr", "-") in ("-", "") else x["thr"].split(",")
+    out, j = [], 0
+    for o in ops.split():
+        if o[0] == "W" and j < len(obs):
+            out.append("T:" + obs[j])
+            j += 1
+        out.append(o)
+    return head + " | " + " ".join(out)
+
+
 # ------------------------------------------------------------------ property oracle (python)
 
 def oracle(case, line):
     """C05 evaluated on ONE implementation output line; independent of the Coq model.
     Returns list of (klass, text)."""
     bad = []
+    if line.startswith("CRASH") and "TIMEOUT" in line:
+        return [("hang", "the implementation did not finish this case within the watchdog time: " + line[:120])]
     if line.startswith("CRASH") or line.startswith("ERR:internal"):
         return [("crash", "upload path crashed or raised internal_error: " + line[:200])]
     if line.startswith("ERR") or line.startswith("BADCASE") or line == "MISSING":
